@@ -73,9 +73,9 @@ func c08SSH(c *c08Ctx) {
 		}
 	}()
 	mtu := srv.MTU()
-	sizes := []int{0, 1, 2, 3, 4, 15, 16, 17, 255, 256, mtu - 1, mtu, mtu + 1, 2 * mtu, 1 << 18}
+	sizes := []int{0, 1, 2, 3, 4, 15, 16, 17, 255, 256, mtu - 1, mtu, mtu + 1, 2 * mtu}
 	names := []string{"", "x", "keepalive@openssh.com", "tcpip-forward", string(make([]byte, 300)), "\x00", "p2p"}
-	n := pick(c.r, 200, 3000)
+	n := pick(c.r, 200, 800)
 	for i := 0; i < n; i++ {
 		kind := g.Intn(6)
 		switch {
@@ -84,7 +84,8 @@ func c08SSH(c *c08Ctx) {
 			payload := g.Bytes(sz)
 			c.record(fmt.Sprintf("sshswarm/request(name=%q,want_reply=%v,len=%d)", trunc([]byte(name), 24), want, sz), trunc(payload, 64))
 			done := make(chan struct{})
-			go func() { sc.SendRequest(name, want, payload); close(done) }()
+			cur := sc
+			go func() { cur.SendRequest(name, want, payload); close(done) }()
 			select {
 			case <-done:
 			case <-time.After(2 * time.Second):
@@ -106,8 +107,9 @@ func c08SSH(c *c08Ctx) {
 			extra := g.Bytes(rng.Pick(g, []int{0, 1, 64, 4096}))
 			c.record(fmt.Sprintf("sshswarm/open-channel(type=%q,extra=%d)", trunc([]byte(typ), 16), len(extra)), trunc(extra, 32))
 			done := make(chan struct{})
+			cur := sc
 			go func() {
-				if ch, rq, err := sc.OpenChannel(typ, extra); err == nil {
+				if ch, rq, err := cur.OpenChannel(typ, extra); err == nil {
 					go ssh.DiscardRequests(rq)
 					ch.Close()
 				}
